@@ -12,7 +12,7 @@ import vlib
 UNMASK = ["lambda_annot", "call_gen_rec"]
 
 
-def run_ty(out, cases, seed, name, label):
+def run_ty(out, cases, seed, name, label, prop="C09"):
     d = vlib.workdir("c09-" + name)
     path = os.path.join(d, "programs.ndjson")
     with open(path, "w") as f:
@@ -23,7 +23,7 @@ def run_ty(out, cases, seed, name, label):
         raise vlib.ToolError("typecheck crashed: " + p.stderr.decode()[-2000:])
     recs = vlib.json_lines(p.stdout)
     for r in recs:
-        if r["kind"] == "mismatch":
+        if r["kind"] == "mismatch" and r.get("prop", "C09") == prop:
             f = dict(r["features"])
             f["run"] = label
             out.report(f, r["detail"])
